@@ -105,4 +105,11 @@ CONFIG = {
         "quick": {"parts": [part("TestC18", 12, 40), part("TestC18Stream", 4, 12)]},
         "thorough": {"parts": [part("TestC18", 24, 600, timeout=3000), part("TestC18Stream", 8, 150, timeout=3000)]},
     },
+    "C17": {
+        "level": "exploration",
+        "rule": "rapid-generated dataset (1-2 tables) + storage split x 2-8 queries (plain SELECT * LIMIT n - the shape that ends its share of a scan early -, SELECT *, field subsets in generated order, and queries from the full grammar; memstore-inclusive or disk-only; no deadline / a generous deadline / an already expired deadline) x arrival offsets inside or outside the coalesce interval (15-40 ms, set by the case). Each query is run alone before and after, and all are issued concurrently in between; oracle: the concurrent outcome of every query equals its solo outcome (same rows and field list; a query that fails alone - its own expired deadline - must fail, one that succeeds alone must succeed). The sizes of the shared scans are read from zenodb's log only to label cases. Non-trivial: a shared scan of >= 2 queries was formed and the dataset has >= 2 points. Distinct = case hash.",
+        "assumptions": ["no insert or flush happens between the solo and the concurrent runs (the harness owns the only writer; a second solo run must reproduce the first, otherwise the case is discarded as a fixture problem)", "whether queries are coalesced is decided by arrival times the harness sets but the scheduler can perturb: the oracle does not depend on it, only the non-triviality label does", "LIMIT without a total order is compared by row count / ORDER BY key values"],
+        "quick": {"parts": [part("TestC17", 16, 25)]},
+        "thorough": {"parts": [part("TestC17", 32, 400, timeout=3000)]},
+    },
 }
